@@ -67,7 +67,6 @@ evaluator, executed lines of the re-read function).
 
 from __future__ import annotations
 
-import itertools
 import linecache
 import math
 import signal
@@ -535,7 +534,7 @@ class Check(BaseCheck):
             plan = dict(
                 full=dict(sizes=(1, 2, 3), depth=3, kinds=allk, outer=outer, inner=inner, returns=('pair',),
                           rots=(0,)),
-                sw=dict(sizes=(3, 4, 5), depth=3, kinds=('S', 'W'), outer=outer, inner=inner,
+                sw=dict(sizes=(3, 4), depth=3, kinds=('S', 'W'), outer=outer, inner=inner,
                         returns=('op',), rots=(1,)),
                 pairs=[('H_RTZ', 'D_RNE'), ('D_RNE', 'H_RTZ'), ('S_RTN', 'H_RTP'), ('H_RNE', 'INT')],
                 xpairs=[(o, i) for o in ('H_RTZ', 'S_RTP', 'D_RNE', 'INT') for i in ('H_RTN', 'D_RTZ', 'I_RNE')],
@@ -718,7 +717,6 @@ class Check(BaseCheck):
                      'tags': tags}
         stmt_after = has_stmt_after_with(src)
         kinds = node_kinds(src)
-        family = tags.get('family', '?')
 
         def violate(signature, args, detail):
             signature = dict(signature)
@@ -987,7 +985,9 @@ class Check(BaseCheck):
             if rg[0] == 'timeout':
                 cap('re-read function')
                 continue
-            good = [val for _, val in meaning] if meaning else [vf]
+            # values a correct re-reading may give (for naming a cause only): the meanings of the core;
+            # without titanfp, what the original gives and what the standard evaluator says
+            good = [val for _, val in meaning] if meaning else [vf] + ([rm[1]] if rm[0] == 'ok' else [])
 
             def read_cause():
                 """the smallest rewrite of the core after which the re-read function is right"""
@@ -1046,6 +1046,9 @@ class Check(BaseCheck):
                 else:
                     cause = cause_of(vg)
                     shape = 'stmt-after-with'
+                    if cause == 'unexplained' and rm[0] == 'ok' and same(rm[1], vg):
+                        # by the standard the core already means what the re-read function gives
+                        cause, shape = text_repair_cause()
                     if cause == 'unexplained':
                         cause = read_cause()
                         shape = read_shape.get(cause, kinds)
